@@ -143,6 +143,7 @@ def cfg_C13(tier, rng):
         for t in c['trans']:
             if rng.random() < 0.3:
                 t['act'] = dict(t['act'], tick=rng.choice([1, 2]))
+    charts += gc.family_idle(rng, 6 if tier == QUICK else 50)
     return [dict(name='time', charts=charts,
                  consts=dict(MaxQ=1, MaxClk=4 if tier == QUICK else 5, Delays={0, 1}, Advances={1, 2},
                              MaxLevel=8 if tier == QUICK else 10),
@@ -216,6 +217,7 @@ def cfg_C09(tier, rng):
     tw = dict(rel='ignore', kw=dict(ignore_contract=True))
     timed = gc.family_f3(rng, 10 if tier == QUICK else 80, nmin=3, nmax=5, tmin=4, tmax=6, nev=2,
                          max_oracle=1, contracts=True, time_guards=True)
+    timed += gc.family_idle(rng, 12 if tier == QUICK else 60, contracts=True)
     return [dict(name='transparent', charts=charts + rich,
                  consts=dict(MaxQ=1, MaxLevel=6 if tier == QUICK else 7, Twin='ignore'),
                  variants=[dict(variant='api', twin=tw)],
